@@ -32,17 +32,63 @@ def _hist_item(d, it):
         return it
 
 
+_HANDLER_TRUSTED = [
+    "jwx (JWT parsing, signature verification), encoding/json and net/url.Parse sit behind descriptors supplied by the harness (tokdb: what jwt.Parse and an independent stdlib verifier make of each token)",
+    "the handler is run against spying wrappers of the REAL stores (memory, Redis on miniredis), key provider and a loopback token endpoint; golang.org/x/oauth2 computes the PKCE challenge",
+]
+
+
+def _sig_hist(d, it, codes):
+    return None
+
+
 PROPS = {
     "C01": {
         "modules": ["Properties.C01"],
-        "theorems": [],
-        "describe_item": _hist_item,
-        "trusted": ["jwx (JWT parsing, signature verification), encoding/json and net/url.Parse sit behind descriptors supplied by the harness"],
+        "theorems": ["C01_ok_justified", "C01_any_failure_denies", "C01_no_cookie_no_ok", "C01_ok_needs_live_session"],
+        "describe_item": _hist_item, "trusted": _HANDLER_TRUSTED,
+        "assumptions": ["session timeouts/evictions are C10's business: the history model lets the map drop any session between checks"],
+    },
+    "C02": {
+        "modules": ["Properties.C02"],
+        "theorems": ["C02_bound_implies_validated", "C02_forwarded_eq_bound", "C02_header_encoding", "C02_store_holds_only_validated"],
+        "describe_item": _hist_item, "trusted": _HANDLER_TRUSTED,
+        "assumptions": ["unforgeability of RSA/ECDSA signatures; jwx behaves on unexplored tokens as on the explored adversarial grammar"],
+    },
+    "C04": {
+        "modules": ["Properties.C04"],
+        "theorems": ["C04_exchange_bound", "C04_state_issued_with_session", "C04_state_consumed", "C04_replay_no_exchange"],
+        "describe_item": _hist_item, "trusted": _HANDLER_TRUSTED,
+        "assumptions": ["S256 is computed by golang.org/x/oauth2 (checked against the provider simulator's own S256 on every exchange)",
+                        "interleavings of overlapping callbacks are covered by C09's schedule exploration, not here"],
+    },
+    "C05": {
+        "modules": ["Properties.C05"],
+        "theorems": ["C05_renewal", "C05_tokens_under_presented_id", "C05_only_issued_ids", "C05_cookie_attrs", "C05_cookie_roundtrip"],
+        "describe_item": _hist_item, "trusted": _HANDLER_TRUSTED,
+        "assumptions": ["cookie theorems are stated for cookie-safe prefixes and ids (printable ASCII without ';', '=' and space); outside it see C05_cookie_attrs_refuted_nontoken",
+                        "freshness of drawn ids (different from anything presented before) is the generator's job (C06); the monitor checks it on the explored histories"],
+    },
+    "C11": {
+        "modules": ["Properties.C11"],
+        "theorems": ["C11_refresh_success_shape", "C11_merged_is_stored", "C11_failure_ends_session"],
+        "describe_item": _hist_item, "trusted": _HANDLER_TRUSTED,
         "assumptions": [],
+    },
+    "C14": {
+        "modules": ["Properties.C14"],
+        "theorems": ["C14_denials_are_public", "C14_ok_adds_only_tokens"],
+        "describe_item": _hist_item, "trusted": _HANDLER_TRUSTED,
+        "assumptions": ["logs are not a user-agent channel and are not examined"],
+    },
+    "C15": {
+        "modules": ["Properties.C15"],
+        "theorems": ["C15_never_panics", "C15_total"],
+        "describe_item": _hist_item, "trusted": _HANDLER_TRUSTED,
+        "assumptions": ["panics inside third-party libraries are visible only to the recover() of the correspondence run, not to the theorem"],
     },
     "C03": {"modules": ["Properties.C01"], "theorems": [], "describe_item": _hist_item},
     "C13": {"modules": ["Properties.C01"], "theorems": [], "describe_item": _hist_item},
-    "C15": {"modules": ["Properties.C01"], "theorems": [], "describe_item": _hist_item},
     "C07": {
         "modules": ["Properties.C07"],
         "theorems": ["C07_trigger_spec", "C07_query_irrelevant", "C07_path_split"],
